@@ -20,17 +20,62 @@ pub struct Val {
     /// id of the provenance set: every known word (pushed constant or known intermediate result)
     /// that flowed into this value; 0 is the empty set. See `RefRun::provenance`.
     pub prov: u32,
+    /// identity of an unknown word, used only to recognise the same symbolic memory offset again: a
+    /// fresh number for every source the subject gives an identity of its own (call data, return
+    /// values, loads), a fixed number for the environment words it compares structurally (CALLER,
+    /// CALLDATASIZE, ...), and a hash of (operator, operand shapes, operand order) for results, which
+    /// mirrors structural equality of the subject's expression trees. 0 for known words.
+    pub shape: u64,
+}
+
+thread_local! {
+    static FRESH: std::cell::Cell<u64> = const { std::cell::Cell::new(1) };
+}
+
+fn fresh_shape() -> u64 {
+    FRESH.with(|f| {
+        let v = f.get();
+        f.set(v + 1);
+        0x8000_0000_0000_0000 | v
+    })
+}
+
+fn mix_shape(op: u8, a: u64, b: u64) -> u64 {
+    let mut h = 0xcbf2_9ce4_8422_2325u64 ^ (op as u64);
+    for x in [a, b] {
+        h = (h ^ x).wrapping_mul(0x0000_0100_0000_01b3);
+        h ^= h >> 29;
+    }
+    h | 1
+}
+
+fn shape_of(v: &Val) -> u64 {
+    match v.w {
+        Some(w) => {
+            let b = w.to_be_bytes();
+            let mut h = 0x9e37_79b9_7f4a_7c15u64;
+            for c in b.chunks(8) {
+                h = (h ^ u64::from_be_bytes(c.try_into().unwrap())).wrapping_mul(0x0000_0100_0000_01b3);
+            }
+            h | 1
+        }
+        None => v.shape,
+    }
 }
 
 impl Val {
     pub fn k(w: W) -> Val {
-        Val { w: Some(w), lit: false, prov: prov_single(w) }
+        Val { w: Some(w), lit: false, prov: prov_single(w), shape: 0 }
     }
     pub fn lit(w: W) -> Val {
-        Val { w: Some(w), lit: true, prov: prov_single(w) }
+        Val { w: Some(w), lit: true, prov: prov_single(w), shape: 0 }
     }
     pub fn u() -> Val {
-        Val { w: None, lit: false, prov: 0 }
+        Val { w: None, lit: false, prov: 0, shape: fresh_shape() }
+    }
+    /// an unknown word the subject compares structurally (an environment opcode without operands)
+    pub fn env(op: u8) -> Val {
+        Val { w: None, lit: false, prov: 0, shape: mix_shape(op, 0x0e0e, 0) }
     }
     /// a value computed from others: known or not, it carries everything that flowed into it
     pub fn derived(w: Option<W>, from: &[Val]) -> Val {
@@ -41,7 +86,7 @@ impl Val {
         if let Some(x) = w {
             p = prov_union(p, prov_single(x));
         }
-        Val { w, lit: false, prov: p }
+        Val { w, lit: false, prov: p, shape: if w.is_some() { 0 } else { fresh_shape() } }
     }
 }
 
@@ -50,7 +95,12 @@ thread_local! {
         std::cell::RefCell::new((vec![std::collections::BTreeSet::new()], std::collections::HashMap::new()));
 }
 
+thread_local! {
+    static PROV_OVERFLOW: std::cell::Cell<bool> = const { std::cell::Cell::new(false) };
+}
+
 fn arena_reset() {
+    PROV_OVERFLOW.with(|f| f.set(false));
     ARENA.with(|a| {
         let mut a = a.borrow_mut();
         a.0.clear();
@@ -89,9 +139,12 @@ fn prov_union(a: u32, b: u32) -> u32 {
     let set = ARENA.with(|ar| {
         let ar = ar.borrow();
         let mut s = ar.0[a as usize].clone();
-        // bounded: provenance beyond 64 words is not needed by any oracle
-        if s.len() < 64 {
+        // bounded; a set that would grow past the bound is flagged so that the run is not used for
+        // attribution (see `RefRun::prov_overflow`)
+        if s.len() < 256 {
             s.extend(ar.0[b as usize].iter().copied());
+        } else {
+            PROV_OVERFLOW.with(|f| f.set(true));
         }
         s
     });
@@ -137,6 +190,9 @@ pub struct Path {
     pub stack:          Vec<Val>,
     /// exact-offset word stores
     pub mem:            BTreeMap<W, Val>,
+    /// word stores at symbolic offsets, by the offset's shape (the subject keys such stores by the
+    /// structure of the offset expression and assumes they alias nothing else; so does this)
+    pub smem:           BTreeMap<u64, Val>,
     /// memory was written through an instruction the reference does not model exactly
     pub mem_imprecise:  bool,
     /// some value's provenance may be incomplete (a hash over memory the reference does not know)
@@ -178,6 +234,8 @@ pub struct RefRun {
     /// the exploration was cut by max_paths / max_steps
     pub complete: bool,
     pub kinds:    Vec<Kind>,
+    /// some provenance set hit its size bound and is incomplete: not to be used for attribution
+    pub prov_overflow: bool,
 }
 
 #[derive(Clone)]
@@ -192,7 +250,14 @@ struct Thread {
 }
 
 fn alu2(op: u8, a: Val, b: Val) -> Val {
-    let (Some(x), Some(y)) = (a.w, b.w) else { return Val::derived(None, &[a, b]) };
+    let (Some(x), Some(y)) = (a.w, b.w) else {
+        let mut v = Val::derived(None, &[a, b]);
+        let (sa, sb) = (shape_of(&a), shape_of(&b));
+        if sa != 0 && sb != 0 {
+            v.shape = mix_shape(op, sa, sb);
+        }
+        return v;
+    };
     Val::derived(Some(match op {
         0x01 => x.add(y),
         0x02 => x.mul(y),
@@ -221,6 +286,7 @@ fn alu2(op: u8, a: Val, b: Val) -> Val {
 
 pub fn run(code: &[u8], cfg: &RefCfg) -> RefRun {
     arena_reset();
+    FRESH.with(|f| f.set(1));
     let kinds = classify(code);
     let mut done: Vec<Path> = vec![];
     let mut queue: Vec<Thread> = vec![Thread {
@@ -230,6 +296,7 @@ pub fn run(code: &[u8], cfg: &RefCfg) -> RefRun {
             landed_by_jump: vec![],
             stack: vec![],
             mem: BTreeMap::new(),
+            smem: BTreeMap::new(),
             mem_imprecise: false,
             prov_imprecise: false,
             sstores: vec![],
@@ -370,6 +437,16 @@ pub fn run(code: &[u8], cfg: &RefCfg) -> RefRun {
                             }
                         }
                     }
+                    if off.w.is_none() && off.shape != 0 && size.w == Some(W::from_u64(32)) {
+                        // one word at a symbolic offset that was stored to on this path
+                        if let Some(v) = t.path.smem.get(&off.shape) {
+                            precise = true;
+                            from.push(*v);
+                            if let Some(w) = v.w {
+                                hash = Some(keccak_words(&[w]));
+                            }
+                        }
+                    }
                     if !precise {
                         t.path.prov_imprecise = true;
                     }
@@ -394,10 +471,13 @@ pub fn run(code: &[u8], cfg: &RefCfg) -> RefRun {
                                 }
                             }
                         },
-                        None => {
-                            t.path.prov_imprecise = true;
-                            Val::u()
-                        }
+                        None => match t.path.smem.get(&off.shape) {
+                            Some(v) if off.shape != 0 => *v,
+                            _ => {
+                                t.path.prov_imprecise = true;
+                                Val::u()
+                            }
+                        },
                     };
                     t.path.stack.push(v);
                 }
@@ -420,8 +500,12 @@ pub fn run(code: &[u8], cfg: &RefCfg) -> RefRun {
                             }
                             t.path.mem.insert(o, v);
                         }
+                        None if off.shape != 0 => {
+                            t.path.smem.insert(off.shape, v);
+                        }
                         None => {
                             t.path.mem.clear();
+                            t.path.smem.clear();
                             t.mem_unknown_default = true;
                             t.path.mem_imprecise = true;
                         }
@@ -433,6 +517,7 @@ pub fn run(code: &[u8], cfg: &RefCfg) -> RefRun {
                         t.path.stack.pop();
                     }
                     t.path.mem.clear();
+                    t.path.smem.clear();
                     t.mem_unknown_default = true;
                     t.path.mem_imprecise = true;
                     t.path.prov_imprecise = true;
@@ -574,6 +659,10 @@ pub fn run(code: &[u8], cfg: &RefCfg) -> RefRun {
                     clobber(&mut t, ret_off, ret_size);
                     t.path.stack.push(Val::u());
                 }
+                0x30 | 0x32 | 0x33 | 0x34 | 0x36 | 0x3a | 0x41..=0x48 | 0x5a => {
+                    // environment words without operands: the subject compares them structurally
+                    t.path.stack.push(Val::env(op));
+                }
                 _ => {
                     // environment / log / create: pops, pushes unknowns
                     for _ in 0..pops {
@@ -609,6 +698,7 @@ pub fn run(code: &[u8], cfg: &RefCfg) -> RefRun {
         complete,
         kinds,
         prov_sets,
+        prov_overflow: PROV_OVERFLOW.with(|f| f.get()),
     }
 }
 
@@ -646,6 +736,7 @@ fn clobber(t: &mut Thread, dest: Val, size: Val) {
         _ => false,
     };
     if !exact {
+        t.path.smem.clear();
         t.path.mem.clear();
         t.mem_unknown_default = true;
         t.path.mem_imprecise = true;
